@@ -47,6 +47,44 @@
 (*                          unmapped, an existing assignment of c is         *)
 (*                          overwritten.                                     *)
 (*                                                                           *)
+(* Concurrent collection starts (MaxFlight > 0).  StartReadCollection is     *)
+(* called from the watch callback, the start-up loop and from every task of  *)
+(* a replicate entity, so several startReadChannel calls can be in flight.   *)
+(* startReadChannel is then three steps:                                     *)
+(*   lookup   channelHandlerMap[key]                        :700             *)
+(*   connect  initReplicateChannelHandler -> CheckConnection (mq round trip, *)
+(*            can take seconds)                             :702-711         *)
+(*   commit   CheckKeyNotExist / AddKeyValue or waitChannel / handler-map    *)
+(*            insert                                        :723-738         *)
+(* A call that finds the handler (:740-750) has no connect step.             *)
+(*   OfferStart(k,v)  a call is issued; it takes channelLock (or queues up   *)
+(*                    behind the holder), looks the handler up and parks in  *)
+(*                    the connection check                                   *)
+(*   Acquire(c)       a queued call gets the released lock (at once: nothing *)
+(*                    else is scheduled while the lock is free and a call is *)
+(*                    queued) and does its lookup                            *)
+(*   Connect(c)       the connection check of c returns; c commits           *)
+(*   OfferAtomic      TRUE = as built: channelLock is held from the lookup   *)
+(*                    to the commit (:689-690), so nothing interleaves.      *)
+(*                    FALSE = negative control (a defect class the code does *)
+(*                    not have, MUST violate Stable): the lookup is its own  *)
+(*                    critical section, the connection check runs unlocked,  *)
+(*                    the commit takes the lock again and does not repeat    *)
+(*                    the lookup: two calls for one key with different       *)
+(*                    values both see "no handler" and both assign.          *)
+(*                                                                           *)
+(* Collection state as an input (WithDropped).  StartReadCollection is also  *)
+(* called for collections that were dropped upstream while cdc was away and  *)
+(* still exist downstream (source state CollectionDropped / Dropping ->       *)
+(* targetInfo.Dropped, :243-272): the handler then only replays a generated  *)
+(* drop message, but its pair goes through startReadChannel like any other.  *)
+(*   OfferDropped(k,v)    such a start                                       *)
+(*   DroppedChecksQuota   TRUE = as built: the state of the collection has   *)
+(*                        no influence on the assignment.  FALSE = negative  *)
+(*                        control (MUST violate Balanced): a dropped         *)
+(*                        collection's new key takes the offered value even  *)
+(*                        when that is full.                                 *)
+(*                                                                           *)
 (* Channel names are introduced in index order (first offer uses s1/t1, a    *)
 (* new name is always the next unused one): the code treats names as opaque  *)
 (* strings, so this covers all offer orders up to renaming (switched off     *)
@@ -60,7 +98,11 @@ CONSTANTS MaxS, MaxT,            \* the counts range over 1..MaxS x 1..MaxT ...
           HandoffChecksCapacity,
           ForwardCountedOnce,
           SourceKeyFromMapping,
-          WithFail               \* histories contain collection starts that fail after the pair's critical section
+          WithFail,              \* histories contain collection starts that fail after the pair's critical section
+          MaxFlight,             \* number of startReadChannel calls that may be in flight at once (0 = sequential offers only)
+          OfferAtomic,           \* TRUE (as built) = channelLock held from the handler lookup to the commit
+          WithDropped,           \* histories contain starts of collections that are already dropped upstream
+          DroppedChecksQuota     \* TRUE (as built) = such a start is subject to the quota like any other
 
 AllPairs == (1..MaxS) \X (1..MaxT)
 
@@ -70,10 +112,12 @@ VARIABLES S, T,       \* channel counts, chosen by the first step
           map,        \* [key index -> value index, 0 = none]
           handlers, waiting, fm, pchk, psend,
           usedK, usedV, \* ghost: highest key / value index offered so far (names in use are 1..used)
+          calls,      \* startReadChannel calls in flight: [call id -> [k, v, ph]], ph = "lock" (queued on channelLock) | "conn" (in the connection check)
+          lock,       \* id of the call that holds channelLock across its connection check, 0 = free
           hist
 
-vars == <<S, T, naming, hsk, map, handlers, waiting, fm, pchk, psend, usedK, usedV, hist>>
-view == <<S, T, naming, hsk, map, handlers, waiting, fm, pchk, psend, usedK, usedV, Len(hist)>>
+vars == <<S, T, naming, hsk, map, handlers, waiting, fm, pchk, psend, usedK, usedV, calls, lock, hist>>
+view == <<S, T, naming, hsk, map, handlers, waiting, fm, pchk, psend, usedK, usedV, calls, lock, Len(hist)>>
 
 SName(i) == IF naming = "same" THEN "ch" \o ToString(i) ELSE "s" \o ToString(i)
 TName(i) == IF naming = "same" THEN "ch" \o ToString(i) ELSE "t" \o ToString(i)
@@ -88,7 +132,14 @@ Count(v) == Cardinality({k \in 1..NK : map[k] = v})
 Canon == ~(naming = "same" /\ ~SrcKey)
 
 Init == /\ S = 0 /\ T = 0 /\ naming = "" /\ hsk = {} /\ map = <<>> /\ handlers = {} /\ waiting = {}
-        /\ fm = <<>> /\ pchk = <<>> /\ psend = <<>> /\ usedK = 0 /\ usedV = 0 /\ hist = <<>>
+        /\ fm = <<>> /\ pchk = <<>> /\ psend = <<>> /\ usedK = 0 /\ usedV = 0 /\ calls = <<>> /\ lock = 0 /\ hist = <<>>
+
+\* channelLock is held by a call parked in its connection check: every other critical section has to wait
+Busy == lock # 0
+Queued == {c \in DOMAIN calls : calls[c].ph = "lock"}
+\* a free lock with a queued call is taken at once
+Urgent == lock = 0 /\ Queued # {}
+Idle == ~Busy /\ ~Urgent
 
 Start(s, t, nm) ==
     /\ S = 0
@@ -97,54 +148,108 @@ Start(s, t, nm) ==
            nv == IF s >= t THEN t ELSE s IN
        /\ map' = [k \in 1..nk |-> 0]
        /\ fm' = [v \in 1..nv |-> 0] /\ pchk' = [v \in 1..nv |-> 0] /\ psend' = [v \in 1..nv |-> 0]
-    /\ UNCHANGED <<handlers, waiting, usedK, usedV>>
+    /\ UNCHANGED <<handlers, waiting, usedK, usedV, calls, lock>>
     /\ hist' = Append(hist, [op |-> "init", S |-> s, T |-> t, names |-> nm])
 
-\* startReadChannel for the pair (key k, value v); lab = "offerfail": the collection's start fails on a LATER shard
-\* (StartReadCollection :421-428 stops the collection on the channels that succeeded; the handler created for the pair
-\* is never started but stays in channelHandlerMap, the assignment stays in the mapping table)
-OfferL(k, v, lab) ==
-    /\ S > 0
+\* startReadChannel, handler not found: :701-738  assign if the offered value has room (CheckKeyNotExist :723), else wait
+NewKey(k, v, force) ==
+    /\ handlers' = handlers \cup {k}
+    /\ hsk' = IF ~SourceKeyFromMapping /\ ~SrcKey /\ naming = "same" /\ k = v   \* :709
+                THEN hsk \cup {k} ELSE hsk
+    /\ IF Count(v) < Avg \/ force
+         THEN /\ map' = [map EXCEPT ![k] = v]                \* :730
+              /\ fm' = [fm EXCEPT ![v] = @ + 1]              \* :729
+              /\ waiting' = waiting
+         ELSE /\ waiting' = waiting \cup {k}                 \* :727
+              /\ UNCHANGED <<map, fm>>
+    /\ UNCHANGED <<pchk, psend>>
+
+\* startReadChannel, handler found: :740-750  a different value is announced to the waiters
+KnownKey(k, v) ==
+    /\ pchk' = IF map[k] # v THEN [pchk EXCEPT ![v] = @ + 1] ELSE pchk   \* :740,745
+    /\ UNCHANGED <<map, handlers, waiting, fm, psend, hsk>>
+
+UseNames(k, v) ==
     /\ Canon => (k <= usedK + 1 /\ v <= usedV + 1)
     /\ usedK' = IF k > usedK THEN k ELSE usedK
     /\ usedV' = IF v > usedV THEN v ELSE usedV
-    /\ IF k \notin handlers
-         THEN \* :701-738  new key: assign if the offered value has room (CheckKeyNotExist :723), else wait
-              /\ handlers' = handlers \cup {k}
-              /\ hsk' = IF ~SourceKeyFromMapping /\ ~SrcKey /\ naming = "same" /\ k = v   \* :709
-                          THEN hsk \cup {k} ELSE hsk
-              /\ IF Count(v) < Avg
-                   THEN /\ map' = [map EXCEPT ![k] = v]                \* :730
-                        /\ fm' = [fm EXCEPT ![v] = @ + 1]              \* :729
-                        /\ waiting' = waiting
-                   ELSE /\ waiting' = waiting \cup {k}                 \* :727
-                        /\ UNCHANGED <<map, fm>>
-              /\ UNCHANGED <<pchk, psend>>
-         ELSE \* :740-750  known key: a different value is announced to the waiters
-              /\ pchk' = IF map[k] # v THEN [pchk EXCEPT ![v] = @ + 1] ELSE pchk   \* :740,745
-              /\ UNCHANGED <<map, handlers, waiting, fm, psend, hsk>>
-    /\ UNCHANGED <<S, T, naming>>
-    /\ hist' = Append(hist, [op |-> lab,
-                             s |-> IF SrcKey THEN SName(k) ELSE SName(v),
-                             t |-> IF SrcKey THEN TName(v) ELSE TName(k)])
+
+PairS(k, v) == IF SrcKey THEN SName(k) ELSE SName(v)
+PairT(k, v) == IF SrcKey THEN TName(v) ELSE TName(k)
+
+\* startReadChannel for the pair (key k, value v), start to end without another call in flight;
+\* lab = "offerfail": the collection's start fails on a LATER shard
+\* (StartReadCollection :421-428 stops the collection on the channels that succeeded; the handler created for the pair
+\* is never started but stays in channelHandlerMap, the assignment stays in the mapping table)
+OfferL(k, v, lab) ==
+    /\ S > 0 /\ Idle
+    /\ UseNames(k, v)
+    /\ IF k \notin handlers THEN NewKey(k, v, lab = "offerdropped" /\ ~DroppedChecksQuota) ELSE KnownKey(k, v)
+    /\ UNCHANGED <<S, T, naming, calls, lock>>
+    /\ hist' = Append(hist, [op |-> lab, s |-> PairS(k, v), t |-> PairT(k, v)])
 
 Offer(k, v) == OfferL(k, v, "offer")
 OfferFail(k, v) == WithFail /\ OfferL(k, v, "offerfail")
+\* the collection is already dropped upstream and still exists downstream
+OfferDropped(k, v) == WithDropped /\ OfferL(k, v, "offerdropped")
+
+(* ---- concurrent calls: lookup / connect / commit ---- *)
+Put(c, rec) == [x \in DOMAIN calls \cup {c} |-> IF x = c THEN rec ELSE calls[x]]
+Del(c) == [x \in DOMAIN calls \ {c} |-> calls[x]]
+FreeId == CHOOSE c \in 1..MaxFlight : c \notin DOMAIN calls /\ \A d \in 1..(c - 1) : d \in DOMAIN calls
+
+\* the call has the lock (or needs none, ~OfferAtomic): handler lookup :700; found -> :740-750 and the call is over,
+\* not found -> into the connection check (as built with the lock in its hands)
+Lookup(c, k, v) ==
+    IF k \in handlers
+      THEN /\ KnownKey(k, v)
+           /\ calls' = Del(c) /\ lock' = 0
+      ELSE /\ calls' = Put(c, [k |-> k, v |-> v, ph |-> "conn"])
+           /\ lock' = IF OfferAtomic THEN c ELSE 0
+           /\ UNCHANGED <<map, handlers, waiting, fm, pchk, psend, hsk>>
+
+OfferStart(k, v) ==
+    /\ S > 0 /\ ~Urgent
+    /\ Cardinality(DOMAIN calls) < MaxFlight
+    /\ UseNames(k, v)
+    /\ LET c == FreeId IN
+       /\ IF Busy
+            THEN /\ calls' = Put(c, [k |-> k, v |-> v, ph |-> "lock"])     \* :689 blocks
+                 /\ UNCHANGED <<map, handlers, waiting, fm, pchk, psend, hsk, lock>>
+            ELSE Lookup(c, k, v)
+       /\ hist' = Append(hist, [op |-> "offerstart", c |-> c, s |-> PairS(k, v), t |-> PairT(k, v)])
+    /\ UNCHANGED <<S, T, naming>>
+
+Acquire(c) ==
+    /\ S > 0 /\ lock = 0 /\ c \in Queued
+    /\ Lookup(c, calls[c].k, calls[c].v)
+    /\ UNCHANGED <<S, T, naming, usedK, usedV>>
+    /\ hist' = Append(hist, [op |-> "acquire", c |-> c])
+
+\* the connection check returns; commit :712-738 - as built still under the lock of the lookup, hence "handler not found"
+\* still holds; the negative control commits on the strength of the old lookup
+Connect(c) ==
+    /\ S > 0 /\ c \in DOMAIN calls /\ calls[c].ph = "conn"
+    /\ OfferAtomic => lock = c
+    /\ NewKey(calls[c].k, calls[c].v, FALSE)
+    /\ calls' = Del(c) /\ lock' = 0
+    /\ UNCHANGED <<S, T, naming, usedK, usedV>>
+    /\ hist' = Append(hist, [op |-> "connect", c |-> c])
 
 \* forwardChannel's critical section :816-823
 FwdCheck(v) ==
-    /\ S > 0 /\ pchk[v] > 0
+    /\ S > 0 /\ Idle /\ pchk[v] > 0
     /\ pchk' = [pchk EXCEPT ![v] = @ - 1]
     /\ IF fm[v] < Avg
          THEN /\ fm' = [fm EXCEPT ![v] = @ + 1]
               /\ psend' = [psend EXCEPT ![v] = @ + 1]
          ELSE UNCHANGED <<fm, psend>>
-    /\ UNCHANGED <<S, T, naming, hsk, map, handlers, waiting, usedK, usedV>>
+    /\ UNCHANGED <<S, T, naming, hsk, map, handlers, waiting, usedK, usedV, calls, lock>>
     /\ hist' = Append(hist, [op |-> "fwdcheck", v |-> IF SrcKey THEN TName(v) ELSE SName(v)])
 
 \* a blocked sender of v meets the waiter of key k; waitChannel's critical section :783-808
 Handoff(v, k) ==
-    /\ S > 0 /\ psend[v] > 0 /\ k \in waiting
+    /\ S > 0 /\ Idle /\ psend[v] > 0 /\ k \in waiting
     /\ psend' = [psend EXCEPT ![v] = @ - 1]
     /\ IF k \in hsk
          THEN \* the handler thinks it is keyed by source: :786 tests, :800/:805 write the entry of TARGET v, value = its source (index k)
@@ -158,7 +263,7 @@ Handoff(v, k) ==
          ELSE /\ map' = [map EXCEPT ![k] = v]         \* :805
               /\ fm' = [fm EXCEPT ![v] = @ + (IF ForwardCountedOnce THEN 0 ELSE 1)]   \* :804
               /\ waiting' = waiting \ {k}
-    /\ UNCHANGED <<S, T, naming, hsk, handlers, pchk, usedK, usedV>>
+    /\ UNCHANGED <<S, T, naming, hsk, handlers, pchk, usedK, usedV, calls, lock>>
     /\ hist' = Append(hist, [op |-> "handoff", v |-> IF SrcKey THEN TName(v) ELSE SName(v),
                                                k |-> IF SrcKey THEN SName(k) ELSE TName(k)])
 
@@ -167,6 +272,9 @@ Next ==
     /\ \/ \E p \in Pairs, nm \in Namings : Start(p[1], p[2], nm)
        \/ \E k \in 1..NK, v \in 1..NV : Offer(k, v)
        \/ \E k \in 1..NK, v \in 1..NV : OfferFail(k, v)
+       \/ \E k \in 1..NK, v \in 1..NV : OfferDropped(k, v)
+       \/ \E k \in 1..NK, v \in 1..NV : OfferStart(k, v)
+       \/ \E c \in DOMAIN calls : Acquire(c) \/ Connect(c)
        \/ \E v \in 1..NV : FwdCheck(v)
        \/ \E v \in 1..NV, k \in 1..NK : Handoff(v, k)
 
@@ -186,6 +294,9 @@ Contract == Total /\ Balanced /\ OneToOneWhenEqual
 
 (* ---------------- design-level invariants -------------------------------- *)
 TypeOK == /\ waiting \subseteq handlers
+          /\ DOMAIN calls \subseteq 1..MaxFlight
+          /\ lock # 0 => (lock \in DOMAIN calls /\ calls[lock].ph = "conn")
+          /\ OfferAtomic => \A c \in DOMAIN calls : calls[c].ph = "conn" => lock = c
           /\ S > 0 => /\ handlers \subseteq 1..NK
                       /\ \A k \in 1..NK : map[k] \in 0..NV
 \* channelForwardMap never undercounts (holds once the handoff is repaired)
